@@ -53,7 +53,7 @@ ChainOf(c) ==
      votes |-> {VoteOf(c.votes[i], i) : i \in DOMAIN c.votes},
      lnv |-> c.lnv,
      sigs |-> {[tx |-> c.sigs[i].tx, by |-> c.sigs[i].by] : i \in DOMAIN c.sigs},
-     ve |-> c.keys.ve, ov |-> c.keys.ov, eo |-> c.keys.eo]
+     ve |-> c.keys.ve, ov |-> c.keys.ov, eo |-> c.keys.eo, q |-> c.q]
 StateOf(j, cfg) ==
     [cfg |-> cfg, h |-> j.h, t |-> j.t, inb |-> j.inb, bal |-> j.bal, sup |-> j.sup, stk |-> j.stk, tot |-> j.tot,
      ch |-> [c \in DOMAIN j.ch |-> ChainOf(j.ch[c])], st |-> j.st, fr |-> j.fr,
@@ -112,6 +112,39 @@ ExtAct(a) == a.k \in {"ExtDeposit", "ExtExec", "ExtMine"}
 ExecConsistent(pre, a) ==
     a.k # "ExtExec" \/ \E b \in pre.ch[a.chain].bat : b.tok = a.ev.tok /\ b.n = a.ev.bn /\ a.paid = SumOver(b.txs, LAMBDA tr : tr.a)
 
+\* C16  the relayer-facing queries answer exactly the recorded confirmations, each attributed to the external
+\* address its validator had registered when it confirmed (gc: chain -> tx -> validator -> that address), and
+\* list as unsigned exactly the stored txs the asking validator has not confirmed
+GcInit(s) == [c \in DOMAIN s.ch |-> <<>>]
+GcNext(gc, pre, a, res) ==
+    IF a.k = "Confirm" /\ res.out = "ok" /\ a.chain \in DOMAIN gc
+    THEN LET v == SignerVal(pre, a.chain, a.by)
+         IN [gc EXCEPT ![a.chain] = Put(@, a.tx, Put(Get(@, a.tx, <<>>), v, a.ext))]
+    ELSE gc
+IsAscending(seq) == \A i \in 1..(Len(seq) - 1) : seq[i] < seq[i + 1]
+C16Queries(gc, post) ==
+    UNION {
+      LET ch == post.ch[c] IN
+      UNION {
+        LET hits == {i \in DOMAIN ch.q.conf : ch.q.conf[i].tx = gsig.tx}
+            list == IF hits = {} THEN <<>> ELSE ch.q.conf[CHOOSE i \in hits : TRUE].list
+            rec(v) == Get(Get(gc[c], gsig.tx, <<>>), v, "?")
+            want == {<<rec(v), gsig.by[v]>> : v \in DOMAIN gsig.by}
+            cur  == {<<Get(ch.ve, v, "?"), gsig.by[v]>> : v \in DOMAIN gsig.by}
+        IN Fail(RangeOf(list) # want \/ Len(list) # Cardinality(DOMAIN gsig.by), "C16:ConfirmationsQuery",
+                IF RangeOf(list) = cur /\ Len(list) = Cardinality(DOMAIN gsig.by) THEN "current-address" ELSE c)
+        : gsig \in ch.sigs}
+      \cup UNION {
+        LET u == ch.q.unsigned[v]
+            eligible == SignerVal(post, c, v) = v
+        IN IF ~u.ok
+           THEN Fail(eligible, "C16:UnsignedQueryRefused", c)
+           ELSE Fail(RangeOf(u.ss) # {x.n : x \in {x \in ch.ss : ~Has(SigsOf(post, c, [t |-> "ss", n |-> x.n]), v)}}, "C16:UnsignedSignerSets", c)
+           \cup Fail({<<p[1], p[2]>> : p \in RangeOf(u.bat)} # {<<b.tok, b.n>> : b \in {b \in ch.bat : ~Has(SigsOf(post, c, [t |-> "bat", tok |-> b.tok, n |-> b.n]), v)}}, "C16:UnsignedBatches", c)
+           \cup Fail(~IsAscending([i \in DOMAIN u.bat |-> u.bat[i][2]]) /\ Cardinality({p[2] : p \in RangeOf(u.bat)}) = Len(u.bat), "C16:UnsignedBatchOrder", c)
+        : v \in DOMAIN ch.q.unsigned}
+      : c \in DOMAIN post.ch}
+
 PropChecks(g, xw, fam, pre, a, res, post) ==
        FailedIsNoop(pre, a, res, post)
   \cup (IF Modelled(a) THEN StepChecks(g, pre, a, res, post) \cup C01Step(pre, a, post) ELSE C05Checks(a, res))
@@ -119,7 +152,7 @@ PropChecks(g, xw, fam, pre, a, res, post) ==
   \cup (IF ~ExecConsistent(pre, a) THEN {<<"infra:ExecInconsistent", "">>} ELSE {})
 
 \* ---------------------------------------------------------------- the trace automaton
-InitHist == [cfg |-> <<>>, pre |-> <<>>, g |-> <<>>, xw |-> <<>>, fam |-> "", n |-> 0, id |-> "", viol |-> {}, cov |-> <<>>]
+InitHist == [cfg |-> <<>>, pre |-> <<>>, g |-> <<>>, gc |-> <<>>, xw |-> <<>>, fam |-> "", n |-> 0, id |-> "", viol |-> {}, cov |-> <<>>]
 
 \* coverage counters: how often each kind of step / outcome was seen (anti-vacuity evidence)
 Bump(cov, key) == Put(cov, key, Get(cov, key, 0) + 1)
@@ -131,7 +164,7 @@ ConsumeReset ==
     /\ l < Len(Trace) /\ Trace[l + 1].k = "reset"
     /\ LET cfg == CfgOf(Trace[l + 1])
            st0 == StateOf(Trace[l + 1].post, cfg)
-       IN hist' = [hist EXCEPT !.cfg = cfg, !.pre = st0, !.g = GhostInit(st0), !.xw = XwInit(st0), !.fam = Trace[l + 1].family,
+       IN hist' = [hist EXCEPT !.cfg = cfg, !.pre = st0, !.g = GhostInit(st0), !.gc = GcInit(st0), !.xw = XwInit(st0), !.fam = Trace[l + 1].family,
                                !.n = hist.n + 1, !.id = Trace[l + 1].id]
     /\ fails' = {}
     /\ l' = l + 1
@@ -144,9 +177,11 @@ ConsumeStep ==
             /\ hist' = [hist EXCEPT !.viol = @ \cup {<<hist.id, line.i, f[1], f[2]>> : f \in fails'},
                                     !.cov = Bump(@, CovKey(line.act, line.res))]
        ELSE LET post == StateOf(line.post, hist.cfg)
+                gc2  == GcNext(hist.gc, hist.pre, line.act, line.res)
                 xw2  == IF ExtAct(line.act) /\ WithWorld(hist.fam) THEN XwApply(hist.xw, line.act) ELSE hist.xw
             IN /\ fails' = ConfChecks(hist.pre, line.act, line.res, post) \cup PropChecks(hist.g, xw2, hist.fam, hist.pre, line.act, line.res, post)
-               /\ hist' = [hist EXCEPT !.pre = post, !.xw = xw2,
+                            \cup C16Queries(gc2, post)
+               /\ hist' = [hist EXCEPT !.pre = post, !.xw = xw2, !.gc = gc2,
                                        !.g = IF Modelled(line.act) THEN GhostNext(hist.g, hist.pre, line.act, line.res, post) ELSE hist.g,
                                        !.viol = @ \cup {<<hist.id, line.i, f[1], f[2]>> : f \in fails'},
                                        !.cov = Bump(@, CovKey(line.act, line.res))]
